@@ -31,10 +31,46 @@ class CExecL3(CExec):
             oname = "global:" + name
             if oname not in st.objs:
                 st.objs[oname] = MemObj(oname, ty.pointee, z3.IntVal(ty.count))
+            if oname not in st.mem:         # objs is shared between path states, mem and path are not
                 rng = z3.IntSort()
                 st.mem[oname] = z3.Const(oname + "@0", z3.ArraySort(z3.IntSort(), rng))
+                self.const_table(st, name, oname, ty)
             return ("mem", Ptr(ty, oname, z3.IntVal(0)))
         raise OutOfSubset("global variable %s" % name)
+
+    def const_table(self, st, name, oname, ty):
+        """contents of a `static const` array initialised by a string literal.  The VarDecl must be part of the
+        extracted AST (name in the unit's filter).  With options['table_facts'][name] = (fact(arr) -> formula,
+        check(list of ints) -> bool) the structural fact is CHECKED against the literal here (every run) and assumed;
+        without one the elements are asserted one by one."""
+        decls = [d for d in self.nodes if d.get("kind") == "VarDecl" and d.get("name") == name and d.get("inner")]
+        if not decls or "const" not in decls[-1].get("type", {}).get("qualType", ""):
+            return
+        lit = decls[-1]["inner"][0]
+        while lit.get("kind") in ("ImplicitCastExpr", "ParenExpr", "InitListExpr") and lit.get("inner"):
+            lit = lit["inner"][0]
+        if lit.get("kind") != "StringLiteral":
+            return
+        import ast as _ast
+        text = _ast.literal_eval(lit["value"])      # clang prints the literal in C syntax; these tables are plain ASCII
+        vals = [ord(c) for c in text] + [0]
+        vals = vals[:ty.count] + [0] * (ty.count - len(vals))
+        arr = st.mem[oname]
+        fact = (self.opt.get("table_facts") or {}).get(name)
+        if fact is not None:
+            # fact: dual-mode function k -> element k (dv.spec helpers).  Checked natively against every element of
+            # the initialiser, then used as the closed form of the table (reads are bounds-checked separately).
+            bad = [k for k in range(ty.count) if fact(k) != vals[k]]
+            if bad:
+                from .core import StaleContract
+                raise StaleContract("the contract's closed form of table %s disagrees with its initialiser at index %d" % (name, bad[0]))
+            k = z3.Int("k!" + name)
+            st.mem[oname] = z3.Lambda([k], fact(k))
+            self.assumptions.add("const table %s is used through the closed form stated by the contract; the closed form is "
+                                 "checked against all %d elements of the initialiser on every run" % (name, ty.count))
+        else:
+            for i, v in enumerate(vals):
+                st.path.append(z3.Select(arr, i) == v)
 
     def call(self, st, name, argn, n):
         if name in ("PyErr_SetString", "PyErr_Format", "PyErr_SetObject", "PyErr_SetNone"):
